@@ -9,7 +9,7 @@
    snapshot's code.  Tied to /repo by ./check C10 (every callback index throwing, per instance). *)
 From Coq Require Import List ZArith Lia Bool.
 Import ListNotations.
-Require Import CV.Orient CV.FreeSpace CV.Api CV.ApiProofs.
+Require Import CV.Orient CV.FreeSpace CV.Api CV.ApiProofs CV.CircuitAccess CV.CircuitAccessProofs CV.ApiAccessProofs CV.CircuitAccess_gen.
 Local Open Scope Z_scope.
 
 (* [F] a guarded setter on a busy circuit is refused with an error and changes nothing (all seven, all arguments) *)
@@ -72,6 +72,27 @@ Proof. exact reachable_consistent_check. Qed.
 (* ---- non-vacuity: a two-cell circuit, detailed placement with one intermediate callback; the callback tries setRows,
    then legalizes again (nested call), then tries setCellIsFixed, and throws at its second invocation
    (ex_c, ex_o, ex_cb: end of ApiProofs.v) *)
+(* [F over the GENERATED table; the translator is trusted] "EVERY structural modification is refused": the list of
+   seven guarded setters of the model is not a sample.  tools/circuit_access.py regenerates from clang's AST of the tree
+   under check the table of ALL member functions of Circuit (constructors excluded): const or not, the line of their
+   first call of checkNotInUse(), every field they write or use in an unclassified way (with the line), the own
+   non-const member functions they call.  For that table: (R1) a non-const member function that can change the
+   structure (nets, pins, rows, fixed / obstruction flags, polarities) calls checkNotInUse() and does so before its
+   first write of anything; (R2) a member function carries the guard iff the model's setter of the same name is
+   `guarded`; (R3) every non-const member function that writes anything at all is one of the fourteen setters of Api.v,
+   a placement entry point (which writes nothing but the in-use flag) or one of the two expansion functions (C18; they
+   write widths only) -- so a setter added to the code, a guard dropped or moved behind a write, all break this
+   theorem even when no generated scenario calls that function inside a callback. *)
+Theorem c10_structural_setters_guarded_in_source : methods_ok circuit_methods.
+Proof. exact (circuit_methods_okb_sound circuit_methods (eq_refl true)). Qed.
+
+(* [F] the name/guard table of that rule is the setter type of the model, both ways *)
+Theorem c10_setter_table_matches_model : forall s, In (setter_name s, guarded s) modelled_setters.
+Proof. exact setter_table_matches_model. Qed.
+Theorem c10_setter_table_complete :
+  forall p, In p modelled_setters -> exists s, setter_name s = fst p /\ guarded s = snd p.
+Proof. exact setter_table_complete. Qed.
+
 Example c10_nonvacuous_callback :
   let '(c', log, e) := call1 StDetailed ex_o (Some ex_cb) ex_c in
   e = Some (ECallback 1) /\ map e_res log = [RefusedInUse; CallDone None; RefusedInUse; RefusedInUse; CallDone None; RefusedInUse]
@@ -99,3 +120,6 @@ Print Assumptions c10_in_use_cleared_after_call.
 Print Assumptions c10_in_use_cleared_after_call_orig_refuted.
 Print Assumptions c10_failed_legalize_unchanged.
 Print Assumptions c10_consistent_after.
+Print Assumptions c10_structural_setters_guarded_in_source.
+Print Assumptions c10_setter_table_matches_model.
+Print Assumptions c10_setter_table_complete.
